@@ -17,6 +17,6 @@ def run(ctx):
     wcutil.run_wc(
         ctx, "C27",
         mc_cfgs=[ctx.q("c27", "c27_thorough")],
-        neg_cfgs=[("neg_sparse_drop_tree", "Inv_C27"), ("neg_sparse_delete", "Inv_C27"), ("finding_sparse_panic", "Inv_C27")],
+        neg_cfgs=[("neg_sparse_drop_tree", "Inv_C27"), ("neg_sparse_delete", "Inv_C27"), ("finding_sparse_panic", "Inv_C27"), ("finding_sparse_clash", "Inv_C27")],
         gen_cfgs=[("gen_c27", ctx.q(300, 1000))],
         n_random=ctx.q(300, 2000), focus="sparse")
